@@ -332,21 +332,40 @@ void run_plan(const std::vector<std::string>& plan, uint64_t run_index, const ch
       {
          Scenario s = build_scenario(g_corpus, plan);
          Outcome o;
+         // delivery independence (see below): the reference execution -- same bytes, delivered at once -- runs in a
+         // forked child, i.e. from exactly the process state this run starts from (state the program keeps for the
+         // life of a process, e.g. a warn-once flag, is the same for both)
+         const bool check_delivery = attempt == 0 && s.src == SRC_STDIN && s.chunk_max > 0 && s.readerr < 0 && s.sinkfail_out < 0 && s.sinkfail_err < 0;
+         int dfd[2] = {-1, -1}; pid_t dpid = -1;
+         if (check_delivery && pipe(dfd) == 0) {
+            std::fflush(stdout);
+            dpid = fork();
+            if (dpid == 0) {
+               close(dfd[0]);
+               Scenario s1 = s; s1.chunk_max = 0;
+               Outcome o1; run_l1(s1, o1);
+               sim::Fnv h; h.u64((uint64_t)o1.status); h.str(o1.out); h.str(o1.err); h.str(o1.uncaught);
+               uint64_t msg[2] = {h.h, (uint64_t)o1.status};
+               (void)!write(dfd[1], msg, sizeof msg);
+               _exit(0);
+            }
+            close(dfd[1]);
+         }
          run_l1(s, o);
          std::string detail;
          std::string sig = oracle(s, o, detail);
-         // delivery independence: the output is a function of the bytes, not of the pieces they arrive in.  A run whose
-         // stdin was delivered in chunks is repeated with the whole document delivered at once; status, stdout and
-         // stderr must be the same ("stdout carries only the requested physics output": at most one of two different
-         // outputs for the same bytes can be the requested one)
-         if (sig.empty() && attempt == 0 && s.src == SRC_STDIN && s.chunk_max > 0 && s.readerr < 0 && s.sinkfail_out < 0 && s.sinkfail_err < 0) {
-            Scenario s1 = s; s1.chunk_max = 0;
-            Outcome o1; run_l1(s1, o1);
-            if (o1.status != o.status || o1.out != o.out || o1.err != o.err || o1.uncaught != o.uncaught) {
+         if (dpid > 0) {
+            uint64_t msg[2] = {0, 0};
+            const bool got = read(dfd[0], msg, sizeof msg) == (ssize_t)sizeof msg;
+            close(dfd[0]);
+            int st = 0; waitpid(dpid, &st, 0);
+            sim::Fnv h; h.u64((uint64_t)o.status); h.str(o.out); h.str(o.err); h.str(o.uncaught);
+            if (sig.empty() && got && msg[0] != h.h) {
                sig = "delivery_dependent_output";
-               detail = "the same bytes on stdin give another result when they arrive in pieces of at most " + std::to_string(s.chunk_max) + " bytes (status " + std::to_string(o.status) + " vs " + std::to_string(o1.status) + ", stdout equal: " + (o1.out == o.out ? "yes" : "no") + ")";
+               detail = "the same bytes on stdin give another result when they arrive in pieces of at most " + std::to_string(s.chunk_max) + " bytes than when they arrive at once (status " + std::to_string(o.status) + " vs " + std::to_string((long long)msg[1]) + ")";
             }
-         }
+            // (a reference child that died is not judged here: the same document delivered at once is a run of its own elsewhere)
+         } else if (dfd[0] >= 0) { close(dfd[0]); close(dfd[1]); }
          // the per-worker directory name appears in diagnostics: take it out of the hashed text
          auto strip = [](std::string t) { size_t p; while ((p = t.find(g_fsdir)) != std::string::npos) t.replace(p, g_fsdir.size(), "<FS>"); return t; };
          // the observable behaviour is that of the FIRST execution (later attempts exist only to tell a repeating leak
